@@ -31,6 +31,7 @@ def main():
     src = os.path.abspath(sys.argv[2])
     checks = [prop]
     name = None
+    base = 'HEAD'       # the /repo commit the change is applied to (one the /verif model currently follows)
     args = sys.argv[3:]
     while args:
         a = args.pop(0)
@@ -38,15 +39,17 @@ def main():
             checks = args.pop(0).split(',')
         elif a == '--keep-id':
             name = args.pop(0)
+        elif a == '--base':
+            base = args.pop(0)
     name = name or '{}-{}'.format(prop, os.path.basename(src))
     patch = os.path.join(src, 'patch.diff')
     demo_src = open(os.path.join(src, 'demo.py')).read()
     wt = '/tmp/seedeval_{}_{}'.format(name, os.getpid())
-    rc, out = sh(['git', '-C', '/repo', 'worktree', 'add', '-q', '--detach', wt, 'HEAD'])
+    rc, out = sh(['git', '-C', '/repo', 'worktree', 'add', '-q', '--detach', wt, base])
     if rc:
         print(out)
         return 3
-    meta = {'id': name, 'property': prop, 'source_dir': src, 'checks_run': {}, 'confirmed': {}}
+    meta = {'id': name, 'property': prop, 'source_dir': src, 'base_commit': base, 'checks_run': {}, 'confirmed': {}}
     try:
         # the demo refers to the seeding agent's own worktree path: point it at ours
         demo = re.sub(r'/tmp/seed2?_C\d+', wt, demo_src)
